@@ -834,3 +834,12 @@ def g12_lexical(ctx):
 
 
 RULES.append(('G12', g12_lexical))
+
+
+def g13_stateless(ctx):
+    """G13 literal readers carry no state from one capture of the line to the next (shared rule, scv/common.py)"""
+    from ..common import reader_stateless
+    reader_stateless(ctx, 'G13', ('Number',))
+
+
+RULES.append(('G13', g13_stateless))
